@@ -15,9 +15,9 @@
   target was already committed (none was created earlier in the same block).
 
   Two clauses are false of the code as written (known findings KF-C20-1/2, replayed on the
-  implementation from corpus/C20 on every run) and one only under an arithmetic side condition
-  (KF-C20-3); each keeps its full statement in a comment, a `_partial` theorem under exactly the
-  hypothesis the code forces, and a proved concrete counterexample.
+  implementation from corpus/C20 on every run); each keeps its full statement in a comment, a
+  `_partial` theorem under exactly the hypothesis the code forces, and a proved concrete
+  counterexample.  The expiry clause is at full strength since the repair of KF-C20-3 (f3370a9).
 -/
 import OLP.Ons.Lemmas
 
@@ -284,7 +284,7 @@ theorem purchase_needs_sale_or_expiry (env : Env) (s s' : St) (b a : Addr) (n : 
   obtain ⟨_, _, _, _, hfr, _⟩ := feeStep_ok h2
   obtain ⟨d, hd, hsub, hfs, _, _, hbr⟩ := runPurchase_ok h1
   have hrecs : ∃ x, s1.recs = upsert (eraseSel (visSub s.tree n) s.recs) n (resetAfterSale d b a x env.version) := by
-    rcases hbr with ⟨_, _, _, _, _, _, _, _, _, hr⟩ | ⟨_, _, _, _, hr⟩
+    rcases hbr with ⟨_, _, _, _, _, _, _, _, _, _, _, hr⟩ | ⟨_, _, _, _, _, _, hr⟩
     · exact ⟨_, hr⟩
     · exact ⟨_, hr⟩
   obtain ⟨x, hrecs⟩ := hrecs
@@ -316,7 +316,7 @@ theorem purchase_pays_owner_at_least_price (env : Env) (s s' : St) (b a : Addr) 
   obtain ⟨g, hg, hfd, hfp, _, _⟩ := feeStep_ok h2
   obtain ⟨d0, hd0, _, _, _, _, hbr⟩ := runPurchase_ok h1
   rw [hd] at hd0; cases hd0
-  rcases hbr with ⟨_, _, price, b0, hsp, hle, hdb0, hdb2, hpool, _⟩ | ⟨hn, _⟩
+  rcases hbr with ⟨_, _, price, b0, _, hsp, hle, hdb0, hdb2, hpool, _⟩ | ⟨hn, _⟩
   · refine ⟨rfl, hpay', hsig, price, g, hsp, hle, hg, by rw [hfp, hpool], fun x => ?_⟩
     rw [(bal_debit hfd x).1, (bal_debit hdb2 x).1, bal_credit, (bal_debit hdb0 x).1, hpay']
     by_cases hx : x = (b, env.olt) <;> simp [hx] <;> omega
@@ -342,7 +342,7 @@ theorem expired_purchase_pays_base (env : Env) (s s' : St) (b a : Addr) (n : Nam
   obtain ⟨g, hg, hfd, hfp, _, _⟩ := feeStep_ok h2
   obtain ⟨d0, hd0, _, _, _, _, hbr⟩ := runPurchase_ok h1
   rw [hd] at hd0; cases hd0
-  rcases hbr with ⟨hlive, _⟩ | ⟨_, hbase, hdb, hpool, _⟩
+  rcases hbr with ⟨hlive, _⟩ | ⟨_, hbase, _, hdb, hpool, _⟩
   · omega
   · refine ⟨rfl, hpay', hbase, g, hg, by rw [hfp, hpool], fun x => ?_⟩
     rw [(bal_debit hfd x).1, (bal_debit hdb x).1, hpay']
@@ -395,31 +395,28 @@ example : (alookup foo sOnSale.recs).map (fun d => (d.onSale, d.salePrice, d.own
 /-! ## 4. Expiry is set / extended by exactly the blocks the payment buys -/
 
 /-- the value is an int64 -/
-def InInt64 (x : Int) : Prop := -9223372036854775808 ≤ x ∧ x < 9223372036854775808
+def InInt64 (x : Int) : Prop := minInt64 ≤ x ∧ x ≤ maxInt64
 
 /-
-  FULL STATEMENT (false of the code for extreme option values): the new expiry is the anchor height
-  plus `payment-part / perBlockFees` *as integers*.  The code truncates the quotient with
-  `big.Int.Int64()` and adds int64s, so the statement needs the quotient and the sum to fit in an
-  int64 (`InInt64`).  With the shipped options (10^14 per block) this needs a payment above
-  9·10^32, more than exists; with the smallest value the governance validation admits
-  (perBlockFees = 1) 9.3 OLT above the base price suffice (KF-C20-3, `expiry_wraps_int64`).
+  Full strength since /repo f3370a9 (KF-C20-3 repaired): the block count goes through `blocksFor`,
+  which refuses ("Buying price too high", no state change) a quotient that — added to the height it
+  extends — does not fit an int64.  So a transaction either executes with the exact expiry below,
+  or is refused; nothing wraps (`overlong_payment_is_refused`).
 -/
 
-/-- create of a non-sub name: expiry = state version + (price − base) / perBlock -/
-theorem expiry_exact_create_partial (env : Env) (s s' : St) (o b : Addr) (n : Name) (u : String) (uo : Bool) (p : Int) (c : Cur)
-    (h : step env s (.create o b n u uo p c) = (.ok, s')) (hns : isSub n = false)
-    (hq : InInt64 (blocksBought p env.opts.base env.opts.perBlock))
-    (hsum : InInt64 (env.version + blocksBought p env.opts.base env.opts.perBlock)) :
+/-- create of a non-sub name: expiry = state version + (price − base) / perBlock, exactly -/
+theorem expiry_exact_create (env : Env) (s s' : St) (o b : Addr) (n : Name) (u : String) (uo : Bool) (p : Int) (c : Cur)
+    (h : step env s (.create o b n u uo p c) = (.ok, s')) (hns : isSub n = false) :
     ∃ d, alookup n s'.recs = some d ∧
-      d.expire = env.version + (p - env.opts.base) / env.opts.perBlock ∧ env.opts.base < p := by
+      d.expire = env.version + (p - env.opts.base) / env.opts.perBlock ∧ env.opts.base < p ∧ InInt64 d.expire := by
   obtain ⟨hv, s1, h1, h2⟩ := step_ok h
   obtain ⟨_, _, _, _, hfr, _⟩ := feeStep_ok h2
   obtain ⟨hp, _, _, _, _, _, _, d, hrecs, _, _, _, hexp⟩ := runCreate_ok h1
   simp only [hns, Bool.false_eq_true, if_false] at hexp
-  refine ⟨d, by rw [hfr, hrecs, alookup_upsert_self], ?_, hp⟩
-  rw [hexp.2, wrap64_id _ hq.1 hq.2, wrap64_id _ hsum.1 hsum.2]
-  rfl
+  obtain ⟨_, q, hq, he⟩ := hexp
+  obtain ⟨hq1, _, hq3, hq4⟩ := blocksFor_some hq
+  refine ⟨d, by rw [hfr, hrecs, alookup_upsert_self], by rw [he, hq1], hp, ?_⟩
+  rw [he]; exact ⟨hq4, hq3⟩
 
 example : (step (envAt 7 "bb") genesis (.create "bb" "" foo "" true 1059 "OLT")).1 = .ok ∧
     (alookup foo (step (envAt 7 "bb") genesis (.create "bb" "" foo "" true 1059 "OLT")).2.recs).map (·.expire) = some (6 + 5) := by decide
@@ -439,29 +436,25 @@ theorem sub_created_with_parent_expiry (env : Env) (s s' : St) (o b : Addr) (n :
 
 example : (alookup xfoo sOnSale.recs).map (·.expire) = some 50 ∧ (alookup foo sOnSale.recs).map (·.expire) = some 50 := by decide
 
-/-- renew: expiry += price / perBlock, only by the owner, only before expiry; every committed
-    sub-name moves with it (pending ones: KF-C20-2) -/
-theorem expiry_exact_renew_partial (env : Env) (s s' : St) (o : Addr) (n : Name) (p : Int) (c : Cur)
+/-- renew: expiry += price / perBlock exactly, only by the owner, only before expiry; every
+    committed sub-name moves with it (pending ones: KF-C20-2) -/
+theorem expiry_exact_renew (env : Env) (s s' : St) (o : Addr) (n : Name) (p : Int) (c : Cur)
     (h : step env s (.renew o n p c) = (.ok, s')) :
     ∃ d d', alookup n s.recs = some d ∧ d.owner = o ∧ env.version ≤ d.expire ∧ alookup n s'.recs = some d' ∧
-      d'.owner = o ∧
-      (InInt64 (p / env.opts.perBlock) → InInt64 (d.expire + p / env.opts.perBlock) →
-        d'.expire = d.expire + p / env.opts.perBlock ∧
-        ∀ k dk, visSub s.tree n k = true → alookup k s'.recs = some dk → dk.expire = d'.expire) := by
+      d'.owner = o ∧ d'.expire = d.expire + p / env.opts.perBlock ∧ InInt64 d'.expire ∧
+      ∀ k dk, visSub s.tree n k = true → alookup k s'.recs = some dk → dk.expire = d'.expire := by
   obtain ⟨hv, s1, h1, h2⟩ := step_ok h
   obtain ⟨_, _, _, _, hfr, _⟩ := feeStep_ok h2
-  obtain ⟨d, hd, hown, _, _, _, hexp, _, _, _, hrecs⟩ := runRenew_ok h1
+  obtain ⟨d, hd, hown, _, _, _, hexp, _, _, _, q, hq, hrecs⟩ := runRenew_ok h1
+  obtain ⟨hq1, _, hq3, hq4⟩ := blocksFor_some hq
   have hnn : visSub s.tree n n = false := by simp [visSub, isSubOf_irrefl]
-  have hl : alookup n s'.recs = some { d with expire := wrap64 (d.expire + wrap64 (p / env.opts.perBlock)), lastUpdate := env.height } := by
+  have hl : alookup n s'.recs = some { d with expire := d.expire + q, lastUpdate := env.height } := by
     rw [hfr, hrecs, alookup_mapSel, alookup_upsert_self]
     simp [hnn]
-  refine ⟨d, _, hd, hown, ?_, hl, hown, fun hq hsum => ?_⟩
+  refine ⟨d, _, hd, hown, ?_, hl, hown, by simp only [hq1], ⟨hq4, hq3⟩, fun k dk hk hdk => ?_⟩
   · simp [expiredAt] at hexp; exact hexp
-  · have he : wrap64 (d.expire + wrap64 (p / env.opts.perBlock)) = d.expire + p / env.opts.perBlock := by
-      rw [wrap64_id _ hq.1 hq.2, wrap64_id _ hsum.1 hsum.2]
-    refine ⟨he, fun k dk hk hdk => ?_⟩
-    rw [hfr, hrecs, alookup_mapSel] at hdk
-    cases hu : alookup k (upsert s.recs n { d with expire := wrap64 (d.expire + wrap64 (p / env.opts.perBlock)), lastUpdate := env.height }) with
+  · rw [hfr, hrecs, alookup_mapSel] at hdk
+    cases hu : alookup k (upsert s.recs n { d with expire := d.expire + q, lastUpdate := env.height }) with
     | none => rw [hu] at hdk; cases hdk
     | some x =>
       rw [hu] at hdk
@@ -469,64 +462,68 @@ theorem expiry_exact_renew_partial (env : Env) (s s' : St) (o : Addr) (n : Name)
       rw [← hdk]
 
 example : (step (envAt 9 "aa") sOnSale (.renew "aa" foo 45 "OLT")).1 = .ok ∧
-    (alookup foo (step (envAt 9 "aa") sOnSale (.renew "aa" foo 45 "OLT")).2.recs).map (·.expire) = some 54 ∧ (alookup xfoo (step (envAt 9 "aa") sOnSale (.renew "aa" foo 45 "OLT")).2.recs).map (·.expire) = some 54 := by decide
+    (alookup foo (step (envAt 9 "aa") sOnSale (.renew "aa" foo 45 "OLT")).2.recs).map (·.expire) = some 54 ∧
+    (alookup xfoo (step (envAt 9 "aa") sOnSale (.renew "aa" foo 45 "OLT")).2.recs).map (·.expire) = some 54 := by decide
 example : (step (envAt 60 "aa") sOnSale (.renew "aa" foo 45 "OLT")).1 = .fail .expired := by decide
 
-/-- purchase of a name on sale: expiry = max(old expiry, version) + (offer − asking price) / perBlock -/
-theorem expiry_exact_purchase_on_sale_partial (env : Env) (s s' : St) (b a : Addr) (n : Name) (o : Int) (c : Cur) (d : Domain)
+/-- purchase of a name on sale: expiry = old expiry + (offer − asking price) / perBlock, exactly -/
+theorem expiry_exact_purchase_on_sale (env : Env) (s s' : St) (b a : Addr) (n : Name) (o : Int) (c : Cur) (d : Domain)
     (price : Int) (h : step env s (.purchase b a n o c) = (.ok, s')) (hd : alookup n s.recs = some d)
-    (hsale : d.onSale = true) (hlive : env.version ≤ d.expire) (hp : d.salePrice = some price)
-    (hq : InInt64 ((o - price) / env.opts.perBlock))
-    (hsum : InInt64 (d.expire + (o - price) / env.opts.perBlock)) :
-    ∃ d', alookup n s'.recs = some d' ∧ d'.expire = d.expire + (o - price) / env.opts.perBlock := by
+    (hsale : d.onSale = true) (hlive : env.version ≤ d.expire) (hp : d.salePrice = some price) :
+    ∃ d', alookup n s'.recs = some d' ∧ d'.expire = d.expire + (o - price) / env.opts.perBlock ∧ InInt64 d'.expire := by
   obtain ⟨hv, s1, h1, h2⟩ := step_ok h
   obtain ⟨_, _, _, _, hfr, _⟩ := feeStep_ok h2
   obtain ⟨d0, hd0, _, _, _, _, hbr⟩ := runPurchase_ok h1
   rw [hd] at hd0; cases hd0
-  rcases hbr with ⟨_, _, price', b0, hsp, _, _, _, _, hrecs⟩ | ⟨hn, _⟩
+  rcases hbr with ⟨_, _, price', b0, q, hsp, _, _, _, _, hq, hrecs⟩ | ⟨hn, _⟩
   · rw [hp] at hsp; cases hsp
-    refine ⟨_, by rw [hfr, hrecs, alookup_upsert_self], ?_⟩
-    simp only [resetAfterSale]
-    rw [wrap64_id _ hq.1 hq.2]
+    obtain ⟨hq1, _, hq3, hq4⟩ := blocksFor_some hq
     have hmax : (if env.version < d.expire then d.expire else env.version) = d.expire := by
       split <;> omega
-    rw [hmax]
-    exact wrap64_id _ hsum.1 hsum.2
+    have he : (resetAfterSale d b a q env.version).expire = d.expire + q := by
+      simp only [resetAfterSale, hmax]
+    refine ⟨_, by rw [hfr, hrecs, alookup_upsert_self], by rw [he, hq1], ?_⟩
+    rw [he]; exact ⟨hq4, hq3⟩
   · exact absurd ⟨hlive, hsale⟩ hn
 
 example : (step (envAt 5 "bb") sOnSale (.purchase "bb" "bb" foo 350 "OLT")).1 = .ok ∧
     (alookup foo (step (envAt 5 "bb") sOnSale (.purchase "bb" "bb" foo 350 "OLT")).2.recs).map (·.expire) = some (50 + 15) := by decide
 
-/-- purchase of an expired name: expiry = version + (offer − base) / perBlock -/
-theorem expiry_exact_purchase_expired_partial (env : Env) (s s' : St) (b a : Addr) (n : Name) (o : Int) (c : Cur) (d : Domain)
+/-- purchase of an expired name: expiry = version + (offer − base) / perBlock, exactly -/
+theorem expiry_exact_purchase_expired (env : Env) (s s' : St) (b a : Addr) (n : Name) (o : Int) (c : Cur) (d : Domain)
     (h : step env s (.purchase b a n o c) = (.ok, s')) (hd : alookup n s.recs = some d)
-    (hexp : d.expire < env.version)
-    (hq : InInt64 (blocksBought o env.opts.base env.opts.perBlock))
-    (hsum : InInt64 (env.version + blocksBought o env.opts.base env.opts.perBlock)) :
-    ∃ d', alookup n s'.recs = some d' ∧ d'.expire = env.version + (o - env.opts.base) / env.opts.perBlock := by
+    (hexp : d.expire < env.version) :
+    ∃ d', alookup n s'.recs = some d' ∧ d'.expire = env.version + (o - env.opts.base) / env.opts.perBlock ∧ InInt64 d'.expire := by
   obtain ⟨hv, s1, h1, h2⟩ := step_ok h
   obtain ⟨_, _, _, _, hfr, _⟩ := feeStep_ok h2
   obtain ⟨d0, hd0, _, _, _, _, hbr⟩ := runPurchase_ok h1
   rw [hd] at hd0; cases hd0
-  rcases hbr with ⟨hlive, _⟩ | ⟨_, _, _, _, hrecs⟩
+  rcases hbr with ⟨hlive, _⟩ | ⟨_, _, q, _, _, hq, hrecs⟩
   · omega
-  · refine ⟨_, by rw [hfr, hrecs, alookup_upsert_self], ?_⟩
+  · obtain ⟨hq1, _, hq3, hq4⟩ := blocksFor_some hq
     have hlt : ¬ env.version < d.expire := by omega
-    simp only [resetAfterSale, hlt, if_false]
-    rw [wrap64_id _ hq.1 hq.2]
-    exact wrap64_id _ hsum.1 hsum.2
+    have he : (resetAfterSale d b a q env.version).expire = env.version + q := by
+      simp only [resetAfterSale, hlt, if_false]
+    refine ⟨_, by rw [hfr, hrecs, alookup_upsert_self], by rw [he, hq1], ?_⟩
+    rw [he]; exact ⟨hq4, hq3⟩
 
 example : (step (envAt 60 "cc") sOnSale (.purchase "cc" "" foo 1040 "OLT")).1 = .ok ∧
     (alookup foo (step (envAt 60 "cc") sOnSale (.purchase "cc" "" foo 1040 "OLT")).2.recs).map (·.expire) = some (59 + 4) := by decide
 
-/-- KF-C20-3 (witness = corpus/C20/kf3_expiry_wraps_int64.hist): with perBlockFees = 1 a payment of
-    10^19 above the base price buys 10^19 blocks, which `Int64()` turns into a negative number: the
-    name is registered already expired (expiry −8446744073709551616 + version) -/
-theorem expiry_wraps_int64 :
+/-- every expiry height the handlers write is an int64 reached without wrapping: in every state
+    reached by any transaction, a record whose expiry changed carries an in-range value — shown
+    above per kind; conversely a payment that would buy more is refused and changes nothing.
+    Regression for KF-C20-3 (witness = corpus/C20/reg_expiry_would_wrap_int64.hist): with
+    perBlockFees = 1 a payment of 10^19 above the base price used to be registered with expiry
+    −8446744073709551616 -/
+theorem overlong_payment_is_refused :
     let env : Env := { envAt 1 "aa" with opts := ⟨1000, 1, ["ol"]⟩ }
     let s : St := { St.empty with bals := [(("aa", "OLT"), 20000000000000000000000)] }
-    (step env s (.create "aa" "" foo "" true 10000000000000001000 "OLT")).1 = .ok ∧
-    (alookup foo (step env s (.create "aa" "" foo "" true 10000000000000001000 "OLT")).2.recs).map (·.expire)
-      = some (-8446744073709551616) := by decide
+    (step env s (.create "aa" "" foo "" true 10000000000000001000 "OLT")).1 = .fail .priceTooHigh ∧
+    (step env s (.create "aa" "" foo "" true 10000000000000001000 "OLT")).2.recs = [] ∧
+    bal (step env s (.create "aa" "" foo "" true 10000000000000001000 "OLT")).2.bals ("aa", "OLT") = 20000000000000000000000 ∧
+    (step env s (.create "aa" "" foo "" true 9223372036854776806 "OLT")).1 = .ok ∧
+    (step env s (.create "aa" "" foo "" true 9223372036854776807 "OLT")).1 = .ok ∧
+    (step env s (.create "aa" "" foo "" true 9223372036854776808 "OLT")).1 = .fail .priceTooHigh := by decide
 
 end OLP.Props.C20
